@@ -15,6 +15,23 @@ CLAIMS = {
             'Trusted: syn parser, the checker\'s Rust-integer semantics (checker/pete.py), the hand-written oracle tables under '
             '/verif/oracles (each next to the classical sentence it encodes). A getter rewritten in a form outside the evaluator\'s '
             'envelope is reported UNANALYSABLE and fails closed.', 'DESIGN.md §3 C19'),
+    'C18': ('reader evaluation over the whole finite key space of the packed literal tables (TABLES/PETE)',
+            'The three packed almanac tables are read by hand-written slicing/regex code. The checker evaluates those readers from '
+            'the syntax tree on the literal tables for every one of the 12x60 keys of each table (2160 keys, 3600 lookups): decoding never '
+            'panics, every raw index (observed before from_index can wrap it) is inside its name list, every day has a spirit, recommended '
+            'and avoided sets are disjoint; the auspicious/ominous split and all kitchen-god attributes are exhaustive tables against oracles. '
+            'Exhaustive for the statement; which key a real date produces is C07/C08/C09.',
+            'Trusted: syn, checker/pete.py semantics, python `re` agreeing with the regex crate on `;XX(.[^;]*)` over ASCII data, the partial '
+            'auspicious/ominous oracle (only undisputed names are judged). A reader rewritten outside the evaluator envelope fails closed (UNANALYSABLE).',
+            'DESIGN.md §3 C18'),
+    'C17': ('finite-domain table evaluation (PETE) with symbolic day-line inputs; sibling agreement of duplicated code',
+            'Day officer, twelve spirits (day and hour), 28 mansions (+1/day, luminary = weekday), six-day star incl. leap months, moon phase, '
+            'minor Ren, year nine star for every year -1..9999, month nine star for all year/month pillars, hour nine star and the piecewise '
+            'day nine star for every solstice pillar are evaluated from the syntax tree as exhaustive tables and compared with the classical '
+            'rules; the lunar-view and sexagenary-view copies are each checked. Civil days enter only as points of Z (day-line model).',
+            'Assumes the day-line abstraction (C01/C07): consecutive integers, pillar (n+49) mod 60, weekday (n+1) mod 7. Not decided: on which '
+            'civil days the solstices fall (numeric), and the day star before the first turning day of a civil year beyond the -1/day recurrence.',
+            'DESIGN.md §3 C17'),
 }
 
 PENDING_REASON = 'check not built yet (DESIGN.md gives the planned static clauses); will be claimed once its rule engine exists'
